@@ -321,7 +321,7 @@ func (c *VC) allocPtr(st *State, v *Term) *Term {
 func (c *VC) deref(st *State, p *Term, t types.Type, pos token.Pos, text string) *Term {
 	c.panicObl(st, "nil-deref", text, pos, mkNot(mkEq(p, intLit64(0))))
 	_, h := c.ptrHeap(st, c.sortOf(t))
-	v := mkSelect(h, p)
+	v := c.sel(h, p)
 	if needsWF(t) || c.mode == ModeInt {
 		c.addFact(tTrue, c.wfAt(st, v, t))
 	}
@@ -482,7 +482,7 @@ func isZeroSlice(t *Term) bool {
 
 func (c *VC) strByte(s, i *Term) *Term {
 	it := types.Typ[types.Int]
-	return mkSelect(mkField(s, "st_arr"), c.binop(token.ADD, mkField(s, "st_off"), i, it))
+	return c.sel(mkField(s, "st_arr"), c.binop(token.ADD, mkField(s, "st_off"), i, it))
 }
 
 func (c *VC) strEqual(a, b *Term) *Term {
@@ -504,6 +504,7 @@ func (c *VC) strEqual(a, b *Term) *Term {
 		}
 	}
 	i := c.boundVar("i", c.idxSort())
+	c.varBounds[i.Op] = interval{bigInt(0), pow2(maxLenBits)}
 	body := mkImplies(mkAnd(c.cmp(token.LEQ, c.idxLit(0), i, it), c.cmp(token.LSS, i, la, it)),
 		mkEq(c.strByte(a, i), c.strByte(b, i)))
 	return mkAnd(mkEq(la, lb), mkForall([]*Term{i}, body))
@@ -537,7 +538,7 @@ func (c *VC) strConcat(st *State, a, b *Term) *Term {
 func (c *VC) sliceRead(st *State, s, i *Term, elemT types.Type) *Term {
 	it := types.Typ[types.Int]
 	_, h := c.sliceHeap(st, c.sortOf(elemT))
-	v := mkSelect(mkSelect(h, mkField(s, "sl_base")), c.binop(token.ADD, mkField(s, "sl_off"), i, it))
+	v := c.sel(c.sel(h, mkField(s, "sl_base")), c.binop(token.ADD, mkField(s, "sl_off"), i, it))
 	return v
 }
 
@@ -578,7 +579,7 @@ func (c *VC) evalIndex(st *State, e *ast.IndexExpr) *Term {
 		a := c.eval(st, e.X)
 		i := c.toIdx(c.eval(st, e.Index), c.typeOf(e.Index))
 		c.panicObl(st, "index", text, e.Pos(), c.inBounds(i, c.idxLit(u.Len())))
-		v := mkSelect(a, i)
+		v := c.sel(a, i)
 		c.readFact(st, v, u.Elem())
 		return v
 	case *types.Pointer:
@@ -587,7 +588,7 @@ func (c *VC) evalIndex(st *State, e *ast.IndexExpr) *Term {
 			arr := c.deref(st, p, u.Elem(), e.Pos(), text)
 			i := c.toIdx(c.eval(st, e.Index), c.typeOf(e.Index))
 			c.panicObl(st, "index", text, e.Pos(), c.inBounds(i, c.idxLit(at.Len())))
-			v := mkSelect(arr, i)
+			v := c.sel(arr, i)
 			c.readFact(st, v, at.Elem())
 			return v
 		}
@@ -843,7 +844,7 @@ func (c *VC) assign(st *State, lhs ast.Expr, v *Term) {
 			c.panicObl(st, "index", text, l.Pos(), c.inBounds(i, mkField(s, "sl_len")))
 			hn, h := c.sliceHeap(st, c.sortOf(u.Elem()))
 			base := mkField(s, "sl_base")
-			row := mkSelect(h, base)
+			row := c.sel(h, base)
 			wi := c.binop(token.ADD, mkField(s, "sl_off"), i, it)
 			c.checkWrite(st, hn, base, wi, c.binop(token.ADD, wi, c.idxLit(1), it), l.Pos(), text)
 			st.heaps[hn] = c.name(hn, mkStore(h, base, mkStore(row, wi, v)))
@@ -918,7 +919,7 @@ func (c *VC) assignPath(st *State, x ast.Expr, xt types.Type, path []int, v *Ter
 	pt := t.Underlying().(*types.Pointer)
 	c.panicObl(st, "nil-deref", text, pos, mkNot(mkEq(ptr, intLit64(0))))
 	hn, h := c.ptrHeap(st, c.sortOf(pt.Elem()))
-	obj := mkSelect(h, ptr)
+	obj := c.sel(h, ptr)
 	nobj := c.updatePath(obj, pt.Elem(), path[lastPtr:], v)
 	c.checkWrite(st, hn, ptr, nil, nil, pos, text)
 	st.heaps[hn] = c.name(hn, mkStore(h, ptr, nobj))
